@@ -312,3 +312,86 @@ func init() {
 			"keys are synthetic byte strings of the four real key widths"},
 	})
 }
+
+// C18.arena: the key arena. Keys are copied into one byte slice that starts at 64 KiB and doubles when
+// the next key does not fit; key widths do not divide that size, so the key that crosses a boundary
+// is the one whose copy has to trigger the growth. The scenario fills a map across the first (and
+// second) boundary and compares everything with the reference map before, at and after the crossing.
+const c18ArenaSize = 65536
+
+var c18ArenaOps = []string{"SetOrUpdate", "Set", "alternating, every 5th an update of an existing key"}
+
+func c18ArenaRun(x *explore.Ctx) {
+	width := c18Widths[x.Case%4]
+	op := (x.Case / 4) % 3
+	boundary := c18ArenaSize << ((x.Case / 12) % 2)
+	seed := uint64(x.Case) + 7
+	hint := []int{0, 6000}[x.Choose(2, "hint(0,6000)")]
+	s := &c18Model{m: hashmap.New(hint), ref: map[string]types.Counters{}, width: width}
+	hashmap.VerifSetSeed(s.m, seed*0x9e3779b97f4a7c15)
+	nCross := boundary / width // number of keys that fit below the boundary
+	total := nCross + 4
+	x.Logf("width=%d ops=%s boundary=%d: key #%d crosses it, %d inserts", width, c18ArenaOps[op], boundary, nCross+1, total)
+	for i := 0; s.next < total; i++ {
+		x.Transition()
+		name := "insert"
+		switch {
+		case op == 2 && i%5 == 4 && len(s.ref) > 0:
+			// update of an existing key: must not consume arena space nor create a second entry
+			k := c18Key(width, (i*7)%s.next)
+			v := c18Val(i + 500000)
+			s.m.SetOrUpdate(k, v.BytesRcvd, v.BytesSent, v.PacketsRcvd, v.PacketsSent)
+			s.ref[string(k)] = addC(s.ref[string(k)], v)
+			name = "update"
+		case op == 1 || (op == 2 && i%2 == 1):
+			k := s.fresh()
+			v := c18Val(s.next)
+			s.m.Set(k, v)
+			s.ref[string(k)] = v
+			name = "Set"
+		default:
+			k := s.fresh()
+			v := c18Val(s.next)
+			s.m.SetOrUpdate(k, v.BytesRcvd, v.BytesSent, v.PacketsRcvd, v.PacketsSent)
+			s.ref[string(k)] = v
+		}
+		// full comparison around every arena boundary passed so far, and at the end
+		near := false
+		for b := c18ArenaSize; b <= boundary; b <<= 1 {
+			if d := s.next - b/width; d >= -2 && d <= 3 {
+				near = true
+			}
+		}
+		if near || s.next == total {
+			if !s.check(x, fmt.Sprintf("%s #%d (%d keys, %d key bytes)", name, i, s.next, s.next*width), 0) {
+				return
+			}
+			x.Nontrivial("%d %d %d %d", width, op, boundary, s.next)
+		}
+	}
+	// merged into a fresh map (Merge copies keys into the destination's arena as well)
+	dst := &c18Model{m: hashmap.New(0), ref: map[string]types.Counters{}, width: width}
+	hashmap.VerifSetSeed(dst.m, seed*31+1)
+	k0 := c18Key(width, 900000)
+	dst.m.Set(k0, c18Val(1))
+	dst.ref[string(k0)] = c18Val(1)
+	dst.m.Merge(s.m)
+	for k, v := range s.ref {
+		dst.ref[k] = addC(dst.ref[k], v)
+	}
+	dst.next = s.next
+	if !dst.check(x, "merge into a fresh map", 0) {
+		return
+	}
+	x.Obs("%d %d %d", width, op, boundary)
+}
+
+func init() {
+	register("C18.arena", &explore.Scenario{
+		ID: "C18", Name: "key arena boundaries (64 KiB, 128 KiB)", Level: "model_checking",
+		Rule:  "cases = 4 key widths (11, 35, 19, 43 bytes: none divides the arena size) x insert operation {SetOrUpdate, Set, alternating with an update of an existing key every 5th step} x arena boundary {64 KiB, 128 KiB}; free choice: size hint {0, 6000}. Keys are inserted until 4 keys beyond the boundary; around every boundary passed (2 keys before .. 3 after) and at the end Len / Get of every key / absent probes / full iteration are compared with the reference map; finally the map is merged into a fresh one and compared again. non-trivial = comparisons next to a boundary",
+		Cases: func(string) int { return 4 * 3 * 2 },
+		Bound: func(string) int { return 0 },
+		Run:   c18ArenaRun, PanicSig: "panic",
+	})
+}
